@@ -44,57 +44,52 @@ Section Run.
     - apply in_map_iff in Hin as ([b2 v2] & [= <- <-] & H2). simpl. exact (IH _ _ _ H2).
   Qed.
 
-  Lemma select_complete sels b rho :
+  Lemma select_complete sels : forall b rho,
     extends rho b -> (forall x, In x (flat_map opnd_vars sels) -> In (rho x) (D x)) ->
     In (map (den W rho) sels) (select W D sels b).
   Proof.
-    intros He Hd. unfold select. apply in_product.
-    induction sels as [|s sels IH]; simpl; constructor.
-    - destruct (ev_opnd_complete W D s b rho He) as (b' & H1 & _).
-      + intros x Hx. apply Hd. simpl. apply in_or_app. auto.
-      + apply in_map_iff. exists (b', den W rho s). auto.
-    - apply IH. intros x Hx. apply Hd. simpl. apply in_or_app. auto.
+    induction sels as [|s sels IH]; intros b rho He Hd; [now left|].
+    cbn [select map].
+    destruct (ev_opnd_complete W D s b rho He) as (b' & H1 & He').
+    - intros x Hx. apply Hd. simpl. apply in_or_app. auto.
+    - apply in_flat_map. exists (b', den W rho s). split; auto. cbn [fst snd].
+      apply in_map. apply IH; auto. intros x Hx. apply Hd. simpl. apply in_or_app. auto.
   Qed.
 
+  (* since 32abf51 the selected expressions are evaluated under one assignment: no disjointness condition on them *)
   Lemma select_sound sels : forall b row rho0,
-    In row (select W D sels b) -> NoDup (flat_map opnd_vars sels) -> b_ok D b -> extends rho0 b ->
+    In row (select W D sels b) -> b_ok D b -> extends rho0 b ->
     exists rho, extends rho b /\ (forall x, ~ In x (flat_map opnd_vars sels) -> rho x = rho0 x) /\
                 (forall x, In x (flat_map opnd_vars sels) -> In (rho x) (D x)) /\
                 row = map (den W rho) sels.
   Proof.
-    unfold select. induction sels as [|s sels IH]; intros b row rho0 Hin Hnd Hb He0.
+    induction sels as [|s sels IH]; intros b row rho0 Hin Hb He0.
     - simpl in *. destruct Hin as [<-|[]]. exists rho0. repeat split; auto. intros x [].
-    - cbn [map] in Hin. apply in_product in Hin. inversion Hin as [|v l' row' ls' Hv Hrow]; subst.
-      apply in_product in Hrow. cbn [flat_map] in *.
-      assert (Hnd' : NoDup (flat_map opnd_vars sels)).
-      { unfold opnd_vars at 1 in Hnd. destruct (opnd_var s); simpl in Hnd; [now inversion Hnd|exact Hnd]. }
-      destruct (IH b row' rho0 Hrow Hnd' Hb He0) as (rho1 & He1 & Hag & Hdm & ->).
-      apply in_map_iff in Hv as ([b1 v1] & Hv1 & H1). simpl in Hv1. subst v1.
+    - cbn [select] in Hin. apply in_flat_map in Hin as ([b1 v] & H1 & Hrow). cbn [fst snd] in Hrow.
+      apply in_map_iff in Hrow as (row' & <- & Hrow').
+      pose proof (ev_opnd_bok W D _ _ _ _ H1 Hb) as Hb1.
       pose proof (ev_opnd_shape _ _ _ _ H1) as Hs.
-      unfold opnd_vars in *. destruct (opnd_var s) as [x|] eqn:Ev; simpl in *.
-      + destruct (lookup b x) eqn:El.
-        * (* root bound by the condition *)
-          subst b1. exists rho1. split; [exact He1|]. split; [|split].
-          -- intros y Hy. apply Hag. tauto.
-          -- intros y [<-|Hy]; auto. rewrite (He1 _ _ El). eapply Hb; eauto.
-          -- f_equal. symmetry. eapply ev_opnd_sound; eauto.
-        * destruct Hs as (w & Hw & ->).
-          inversion Hnd as [|? ? Hnotin _]; subst.
-          exists (upd rho1 x w).
-          assert (Eu : upd rho1 x w x = w) by (unfold upd; now rewrite Nat.eqb_refl).
-          assert (En : forall y, y <> x -> upd rho1 x w y = rho1 y).
-          { intros y Hy. unfold upd. destruct (Nat.eqb_spec y x); [contradiction|reflexivity]. }
-          assert (Hext : extends (upd rho1 x w) b).
-          { intros y u Hl. rewrite En; auto. intros ->. congruence. }
-          split; [exact Hext|]. split; [|split].
-          -- intros y Hy. rewrite En by (intros ->; apply Hy; auto). apply Hag. tauto.
-          -- intros y [<-|Hy]; [now rewrite Eu|]. rewrite En; auto. intros ->. contradiction.
-          -- f_equal.
-             ++ symmetry. eapply ev_opnd_sound; eauto. apply extends_cons; auto.
-             ++ apply map_ext_in. intros e' He'. apply den_ext. intros y Hy. symmetry. apply En.
-                intros ->. apply Hnotin. apply in_flat_map. exists e'. split; auto.
-      + subst b1. exists rho1. split; [exact He1|]. split; [|split]; auto.
-        f_equal. symmetry. eapply ev_opnd_sound; eauto.
+      assert (Hx : exists rho0', extends rho0' b1 /\ (forall y, ~ In y (opnd_vars s) -> rho0' y = rho0 y) /\
+                                 (forall y, In y (opnd_vars s) -> exists u, lookup b1 y = Some u)).
+      { unfold opnd_vars. destruct (opnd_var s) as [x|] eqn:Ev.
+        - destruct (lookup b x) eqn:El.
+          + subst b1. exists rho0. split; [auto|]. split; [auto|]. intros y [<-|[]]. eauto.
+          + destruct Hs as (w & Hw & ->). exists (upd rho0 x w). split; [|split].
+            * apply extends_cons; auto. split.
+              -- unfold upd. now rewrite Nat.eqb_refl.
+              -- intros y u Hl. unfold upd. destruct (Nat.eqb_spec y x) as [->|]; [congruence|]. now apply He0.
+            * intros y Hy. unfold upd. destruct (Nat.eqb_spec y x) as [->|]; [|reflexivity]. exfalso. apply Hy. now left.
+            * intros y [<-|[]]. exists w. apply lookup_cons_eq.
+        - subst b1. exists rho0. split; [auto|]. split; [auto|]. intros y []. }
+      destruct Hx as (rho0' & He0' & Hag0 & Hbd).
+      destruct (IH b1 row' rho0' Hrow' Hb1 He0') as (rho1 & He1 & Hag & Hdm & ->).
+      destruct (ev_opnd_sound W D _ _ _ _ H1 rho1 He1) as [Heb Hden].
+      exists rho1. split; [exact Heb|]. cbn [flat_map map]. split; [|split].
+      + intros y Hy. rewrite Hag by (intros H; apply Hy; apply in_or_app; auto).
+        apply Hag0. intros H; apply Hy; apply in_or_app; auto.
+      + intros y Hy. apply in_app_or in Hy as [Hy|Hy]; [|auto].
+        destruct (Hbd y Hy) as (u & Hu). rewrite (He1 _ _ Hu). eapply Hb1; eauto.
+      + now rewrite Hden.
   Qed.
 
   (* ---------- whole queries ---------- *)
@@ -117,11 +112,10 @@ Section Run.
 
   Theorem run_sound q row :
     snd_ok_opt (q_cond q) = true ->
-    NoDup (flat_map opnd_vars (q_sels q)) ->
     (forall x, In x (query_vars q) -> D x <> []) ->
     In row (run W D q) -> answer W D q row.
   Proof.
-    intros Hok Hnd Hne Hin. unfold run in Hin. apply in_flat_map in Hin as (b1 & Hb1 & Hrow).
+    intros Hok Hne Hin. unfold run in Hin. apply in_flat_map in Hin as (b1 & Hb1 & Hrow).
     assert (Hb : b_ok D b1 /\ forall rho, extends rho b1 -> sat_opt W D rho (q_cond q) = true).
     { destruct (q_cond q) as [c|]; simpl in *.
       - apply in_map_iff in Hb1 as ([b f] & <- & Hf). apply filter_In in Hf as [Hf Ht].
@@ -131,7 +125,7 @@ Section Run.
       - destruct Hb1 as [<-|[]]. split; auto. apply b_ok_nil. }
     destruct Hb as [Hb Hsat].
     assert (He0 : extends (fill b1) b1). { intros x v Hl. unfold fill. now rewrite Hl. }
-    destruct (select_sound _ _ _ _ Hrow Hnd Hb He0) as (rho & He & Hag & Hdm & ->).
+    destruct (select_sound _ _ _ _ Hrow Hb He0) as (rho & He & Hag & Hdm & ->).
     exists rho. repeat split; auto.
     intros x Hx. destruct (in_dec Nat.eq_dec x (flat_map opnd_vars (q_sels q))) as [Hi|Hi]; auto.
     rewrite Hag by exact Hi. unfold fill. destruct (lookup b1 x) eqn:El.
@@ -141,11 +135,29 @@ Section Run.
 
   Theorem run_exact q :
     snd_ok_opt (q_cond q) = true ->
-    NoDup (flat_map opnd_vars (q_sels q)) ->
     (forall x, In x (query_vars q) -> D x <> []) ->
     forall row, In row (run W D q) <-> answer W D q row.
   Proof.
-    intros H1 H2 H3 row. split; [apply run_sound; auto | apply run_complete].
+    intros H1 H3 row. split; [apply run_sound; auto | apply run_complete].
     destruct (q_cond q); simpl in *; auto. eapply snd_ok_qfree; eauto.
   Qed.
+  (* quantifier-free queries: no side condition on the shape of the condition or of the selection *)
+  Theorem run_exact_qfree q :
+    qfree_opt (q_cond q) = true ->
+    (forall x, In x (query_vars q) -> D x <> []) ->
+    forall row, In row (run W D q) <-> answer W D q row.
+  Proof.
+    intros Q. apply run_exact. destruct (q_cond q); simpl in *; auto. now rewrite snd_ok_is_qfree.
+  Qed.
+
+  Theorem run_sound_qfree q row :
+    qfree_opt (q_cond q) = true ->
+    (forall x, In x (query_vars q) -> D x <> []) ->
+    In row (run W D q) -> answer W D q row.
+  Proof. intros Q Hne. apply (run_exact_qfree q Q Hne). Qed.
+
+  Lemma eval_sound_qfree c pol b b' :
+    qfree c = true -> In (b', negb pol) (eval W D c b) ->
+    forall rho, extends rho b' -> sat W D rho c = pol.
+  Proof. intros Q. apply eval_sound. now rewrite snd_ok_is_qfree. Qed.
 End Run.
